@@ -241,6 +241,19 @@ class Ctx:
             w = Fr(h.randint(-3000, 3000), 1009)
         return S(at.var, w)
 
+    def ufun(self, name, args):
+        """Application of a genuinely uninterpreted function (solver-side congruence): formal
+        structure functions F(x), PDFs f(pid, x, mu2), ..."""
+        args = [S.lift(a) for a in args]
+        if not hasattr(self, "_ufuns"):
+            self._ufuns = {}
+        key = (name, len(args))
+        if key not in self._ufuns:
+            self._ufuns[key] = z3.Function(name, *([z3.RealSort()] * (len(args) + 1)))
+        f = self._ufuns[key]
+        h = random.Random(hash((name, tuple(a.w for a in args))))
+        return S(f(*[a.t for a in args]), Fr(h.randint(-3000, 3000), 1009))
+
     def _atom_facts(self, at, arg):
         v = at.var
         if at.fn == "sqrt":
@@ -700,6 +713,13 @@ def sym_sqrt(s):
             return S.lift(r)
     else:
         c.oblige("sqrt", s.t >= 0)
+        # sqrt of a perfect square of a variable: sqrt(v^2) = v when the domain says v >= 0
+        r = _exact_sqrt(s.w) if s.w >= 0 else None
+        if r is not None:
+            for n, (v, lo, hi) in c.vars.items():
+                if c.assign.get(n) == r and lo is not None and tofrac(lo) >= 0:
+                    if c.proves_equal(s.t, v * v):
+                        return S(v, r)
     return c.atom("sqrt", s)
 
 
